@@ -485,6 +485,40 @@ impl Lane for C12 {
                 one("is_superdigraph", guard(|| hh.is_superdigraph(&g)), exp.sup);
                 one("is_spanning_subdigraph", guard(|| hh.is_spanning_subdigraph(&g)), exp.spanning);
             }
+            // Which predicates start workers is a property of the tree under test. Each unary predicate of the
+            // list is executed once more as a scheduled execution of its own; if it started a worker there, it is
+            // judged under every configuration of the scenario (CPU counts, schedulers, concurrent callers do not
+            // apply): one ambient schedule per scenario is too little for an interleaving-dependent verdict.
+            if n <= 80 {
+                let ga = std::sync::Arc::new(g.clone());
+                let preds: [(&str, fn(&graaf::AdjacencyList) -> bool, bool); 6] = [
+                    ("is_complete", |x| x.is_complete(), exp.complete),
+                    ("is_tournament", |x| x.is_tournament(), exp.tournament),
+                    ("is_regular", |x| x.is_regular(), exp.regular),
+                    ("is_balanced", |x| x.is_balanced(), exp.balanced),
+                    ("is_symmetric", |x| x.is_symmetric(), exp.symmetric),
+                    ("is_oriented", |x| x.is_oriented(), exp.oriented),
+                ];
+                for (pred, f, want) in preds {
+                    for (ci, conf) in sc.confs.iter().enumerate() {
+                        let gb = std::sync::Arc::clone(&ga);
+                        let rep = crate::exec::run_exec(conf, move || f(&gb));
+                        if rep.log.max_task == 0 && rep.failure.is_none() && rep.value == Some(want) {
+                            // no worker in this configuration (sequential today, or one CPU): judged above
+                            continue;
+                        }
+                        st.exec(conf, &rep.log);
+                        st.bump("probe/predicate_started_workers");
+                        let op = format!("AdjacencyList::{pred}");
+                        if let Some(fl) = &rep.failure {
+                            vs.push(Violation::new(fl.class(), &op, "contiguous", format!("configuration #{ci}: {}", fl.message())));
+                        } else if rep.value != Some(want) {
+                            vs.push(Violation::new("wrong_result", &op, "contiguous",
+                                format!("configuration #{ci} (cpu={:?}): returned {:?}, the definition says {want}", conf.cpu, rep.value)));
+                        }
+                    }
+                }
+            }
             check_preds!(st, vs, "AdjacencyMatrix", "contiguous", exp, mx_d, mx_h);
             check_preds!(st, vs, "EdgeList", "contiguous", exp, el_d, el_h);
             let w = |x: &Dg| WDg { v: x.v.clone(), a: x.a.iter().map(|&(u, v)| ((u, v), 1 + ((u * 7 + v) % 5) as i64)).collect() };
